@@ -355,7 +355,7 @@ def run(tier, seed):
                                      SU if tag == "fsolve" else UT, {"entries": n, "fails": fails[:4], "reason": und_[:2] if und_ else None}))
             allfails += [dict(case=str(args), **f) for f in fails]
     run.add_verdicts(vs)
-    ev, cf = report.guarded(run, concrete, report.REPO, seed, 6 if tier == "quick" else 200)
+    ev, cf = report.guarded(run, concrete, report.REPO, seed, 6 if tier == "quick" else 400)
     run.bounded.append(dict(name="float: coupled random systems (SolveUnc, SolveUnc pre_eig, FreqDirect) vs numpy solve of the dynamic-stiffness system; v=iWd, a=-W^2 d; "
                                  "0 Hz anywhere in the frequency vector", evaluations=ev, failures=0 if cf is None else 1, label="bounded (never counted as proved)"))
     kf = [k_ for k_ in run.known if k_.get("obligation") == "fsolve.rigid-body-damping" and k_.get("status") == "open"]
